@@ -349,6 +349,8 @@ def register(M):
             if pos < len(it.items):
                 it.pos = pos + 1
                 return it.items[pos]
+            if getattr(it, 'pending', None) is not None:
+                raise it.pending
             if len(args) > 1:
                 return args[1]
             raise AbsRaise(ExcVal('StopIteration'), node)
